@@ -310,6 +310,11 @@ def value_objects(ctx, tmp):
     except Exception:
         pass
     try:
+        cal_parent = DatasetType("bias_like", u.conform(["instrument", "detector"]), "ExposureF", isCalibration=True)
+        dts += [cal_parent, cal_parent.makeComponentDatasetType("wcs"), cal_parent.makeComponentDatasetType("image")]
+    except Exception as e:
+        ctx.notes.append(f"calibration component dataset types unavailable here: {type(e).__name__}")
+    try:
         comp_parent = DatasetType("exp_like", u.conform(["instrument", "visit"]), "ExposureF")
         dts += [comp_parent, comp_parent.makeComponentDatasetType("wcs"), comp_parent.makeComponentDatasetType("image")]
     except Exception as e:
@@ -348,6 +353,62 @@ def value_objects(ctx, tmp):
             ("json", lambda x: DataCoordinate.from_json(x.to_json(), universe=u)),
             ("pickle", lambda x: pickle.loads(pickle.dumps(x))),
         ])
+    # the same expanded data ID read several times inside ONE persistence context (alone and inside refs that share it): every
+    # read comes back with the records
+    exp_ids = [d for d in dataids if d.hasRecords() and len(d.dimensions) > 0][:6]
+    for d in exp_ids:
+        for form, enc_, dec_ in (("simple", lambda x: x.to_simple(), lambda s_: DataCoordinate.from_simple(s_, universe=u)),
+                                 ("json", lambda x: x.to_json(), lambda s_: DataCoordinate.from_json(s_, universe=u))):
+            ctx.evaluations += 1
+            ctx.count(f"data-id-read-thrice-in-one-context:{form}")
+            try:
+                back = PersistenceContextVars().run(lambda x: [dec_(enc_(x)) for _ in range(3)], d)
+            except Exception as e:
+                viol(f"reading the expanded data ID {d} three times ({form}) inside one persistence context raised {type(e).__name__}",
+                     f"dataid-thrice-raise:{form}", {"kind": "dataid-thrice", "form": form, "dataid": str(d)})
+                continue
+            states = [(y == d, y.hasFull(), y.hasRecords()) for y in back]
+            if any(st_ != (True, d.hasFull(), True) for st_ in states):
+                viol(f"reading the expanded data ID {d} three times ({form}) inside one persistence context: (equal, full, records) per read = {states}",
+                     f"dataid-thrice:{form}", {"kind": "dataid-thrice", "form": form, "dataid": str(d), "states": [list(x) for x in states]})
+    # dimension records of another universe version read after the default one's in the same process (the record classes are
+    # per universe: `exposure` of version 6 has no can_see_sky)
+    try:
+        import lsst.daf.butler as _m
+        from lsst.daf.butler import DimensionConfig, DimensionUniverse
+
+        old_dir = os.path.join(os.path.dirname(_m.__file__), "configs", "old_dimensions")
+        for fname in sorted(os.listdir(old_dir)):
+            if not fname.endswith(".yaml"):
+                continue
+            ou = DimensionUniverse(DimensionConfig(os.path.join(old_dir, fname)))
+            for el, fields in (("exposure", {"instrument": "I", "id": 7, "obs_id": "o7", "physical_filter": "f1"}),
+                               ("detector", {"instrument": "I", "id": 3, "full_name": "d3"}),
+                               ("visit", {"instrument": "I", "id": 9, "name": "v9", "physical_filter": "f1"})):
+                for uni in (u, ou, u):
+                    try:
+                        elem = uni[el]
+                        extra = {k_: v_ for k_, v_ in (("day_obs", 20240101), ("group", "g"), ("visit_system", 0))
+                                 if k_ in elem.RecordClass.fields.names and k_ not in fields}
+                        if el == "exposure" and "group_name" in elem.RecordClass.fields.names:
+                            extra["group_name"] = "g"
+                        rec_ = elem.RecordClass(**fields, **extra)
+                    except Exception:
+                        continue
+                    ctx.evaluations += 1
+                    ctx.count("record-of-other-universe")
+                    try:
+                        back = DimensionRecord.from_json(rec_.to_json(), universe=uni)
+                        ok_ = back == rec_ and back.toDict() == rec_.toDict()
+                        why = "" if ok_ else f"came back as {back.toDict()}"
+                    except Exception as e:
+                        ok_, why = False, f"raised {type(e).__name__}: {str(e)[:80]}"
+                    if not ok_:
+                        viol(f"{el} record of universe version {uni.version} (JSON form, read after records of other versions in this process) {why}",
+                             f"record-other-universe:{el}:{fname}", {"kind": "record-universe", "element": el, "universe": fname})
+                        break
+    except ImportError:
+        pass
     # dimension records
     for el in ("instrument", "detector", "physical_filter", "visit", "day_obs", "exposure", "group", "visit_definition", "visit_detector_region"):
         for rec in reg.queryDimensionRecords(el, instrument="I"):
